@@ -319,6 +319,24 @@ func runLoopsStream(r *Run) {
 			}
 		}
 	}
+	// (1b) offset and limit at the integer boundary ("no limit" sentinels such as MaxInt), alone and together, as literals
+	// and as variables: skipping o and then taking n items must not add o and n
+	hugeMods := []string{"a", "0", "1", "2", "9223372036854775807", "9223372036854775806", "4611686018427387904", "2147483648"}
+	for _, n := range []int{0, 1, 3, 5} {
+		for _, off := range hugeMods {
+			for _, lim := range hugeMods {
+				if len(off) < 3 && len(lim) < 3 {
+					continue // the grid has these
+				}
+				for rev := 0; rev <= 1; rev++ {
+					for _, tag := range []string{"for", "tr2"} {
+						do(fmt.Sprintf("g/%d/%s/%s/%d/%s/n", n, off, lim, rev, tag))
+						do(fmt.Sprintf("v/%d/%s/%s/%d/%s", n, off, lim, rev, tag))
+					}
+				}
+			}
+		}
+	}
 	// (2) offset and limit as variables
 	for n := 0; n <= 4; n++ {
 		for _, off := range mods {
